@@ -227,3 +227,5 @@ def replay(ctx, payload):
 
 
 LEVEL_NOTE = "; ".join(TRUSTED) + '. NEW (T1b): `sequence_bytes` is translated from the current source into a seek/read plan and the model is proved equal to that plan run on a file cursor (`sequence_bytes_plan_eq`, `source_sequence_bytes_slice` in Properties/C03Source.lean)'
+
+LEVEL_NOTE = LEVEL_NOTE + " NEW: `Properties/C03Cli.lean` — a whole `pretext-to-asm -o x.fa` run composed end to end: `cli_written_files` (each named assembly → its .fa and the .agp beside it from the SAME scaffolds), `cli_fasta_records_are_scaffolds`, `cli_fasta_record_names_unique` (under C10's hypotheses + `MergeDisjoint`; without it FALSE: open finding F21), `cli_agp_beside_fasta_same_rows`, `cli_fasta_reindexes`, `cli_every_base_of_every_record`, `fasta_cli_end_to_end`"
